@@ -33,6 +33,7 @@ Definition entry (cmd : Z) (args : list Z) : list Z :=
   if cmd =? 92 then entry_static args else
   if cmd =? 93 then entry_matrix args else
   if cmd =? 94 then entry_static_detail args else
+  if cmd =? 95 then entry_run_reports args else
   if cmd =? 70 then entry_open_positions args else
   if cmd =? 71 then entry_open_positions_first args else
   if cmd =? 60 then entry_tax_report tax_tables_us args else
